@@ -182,7 +182,9 @@ Proof.
   assert (P2 : PProv G p2).
   { destruct X1 as (A & B & C & D & E & F & H & I). unfold p2, PProv. cbn. repeat split; assumption. }
   destruct (publish_ok G p2 P2) as [Y1 Y2]. destruct (publish p2) as [p3 e3]. cbn [fst snd] in *.
-  split; [exact Y1|apply all_ok_app; assumption].
+  split; [|apply all_ok_app; assumption].
+  destruct X1 as (A & B & C & D & E & F & H & I). destruct Y1 as (A' & B' & C' & D' & E' & F' & H' & I').
+  unfold PProv. cbn. repeat split; assumption.
 Qed.
 
 Lemma prov_on_message_ok G p m : PProv G p -> all_ok G (prov_on_message p m).
